@@ -174,6 +174,8 @@ class Connection(object):
         self.auth_token = auth_token
         self.username = username
         self.connected = False
+        self.socket = None
+        self.file_object = None
 
         self.handle_exception = handle_exception
         self.exception, self.exc_info = None, None
@@ -480,7 +482,8 @@ class Connection(object):
                 except socket.error:
                     pass
                 finally:
-                    self.file_object.close()
+                    if self.file_object is not None:
+                        self.file_object.close()
                     self.socket.close()
                     self.socket = None
 
